@@ -590,6 +590,41 @@ def code_rules(chk, repo):
            what='the stored uncertainty basis is the file\'s '
                 'InvCovMat.groups, unchanged',
            found=' | '.join(sym.show(d)[:100] for d in descs))
+    # ---- R14.5 a scalar temperature gives a plain number ---------------------
+    # (the property's "finite plain numbers"): on every path of the table
+    # correlation's getters that is not the array branch, what is returned is
+    # a float(...) conversion, arithmetic over such values, or a stored
+    # end value -- never the array helper or a numpy constructor
+    RAWM = 'pgradd/ThermoChem/raw_data.py'
+    for mname in ('get_CpoR',):
+        f = repo.func(RAWM, 'ThermochemRawData.' + mname)
+        bad = []
+        nscalar = 0
+        for p_ in sym.summarize(f):
+            if p_.outcome[0] != 'return':
+                continue
+            arrayish = False
+            for k, pol in p_.conds():
+                for lit in sym.lits_of(k, pol):
+                    if lit[0] == 'not' and sym.mentions(
+                            lit[1], lambda x: x[0] == 'attr'
+                            and x[2] == 'isscalar'):
+                        arrayish = True
+            if arrayish:
+                continue
+            nscalar += 1
+            v = p_.outcome[1]
+            if sym.mentions(v, lambda x: x[0] == 'call' and (
+                    (x[1][0] == 'attr' and (x[1][2].endswith('_ar') or (
+                        x[1][1] == ('name', 'np'))))
+                    or x[1] == ('name', 'np'))):
+                bad.append(sym.show(v)[:100])
+        chk.ob('R14.5', not bad and nscalar >= 1, RAWM, f,
+               key='scalar-plain:' + mname,
+               what='ThermochemRawData.%s returns a plain number for a '
+                    'scalar temperature (no array helper, no numpy '
+                    'constructor on that branch)' % mname,
+               found='; '.join(bad))
     # ---- R14.4 evaluation of every group goes through reviewed code ---------
     for rel, cname in (('pgradd/ThermoChem/incomplete.py',
                         'ThermochemIncomplete'),
